@@ -206,7 +206,10 @@ def build(job):
         else:
             m.st((y >= piece_expr(p1, x, z)).forall(rowsup), (y >= piece_expr(p2, x, z)).forall(rowsup))
     if p['econ']:
-        m.st(E(piece_expr(rec['econ'], x, z)) <= 0)
+        if rec.get('econEq'):
+            m.st(E(piece_expr(rec['econ'], x, z)) == 0)
+        else:
+            m.st(E(piece_expr(rec['econ'], x, z)) <= 0)
     return m, dict(x=x, y=y, z=z, u=u, nu=nu, labels=labels)
 
 
@@ -510,6 +513,11 @@ def true_optimum(rec, xb, G=None):
             wh, qh, _ = mo.worst(Hvals(theta))
             if wh > 1e-8:
                 r, c = cut_econ(qh); A.append(r); b.append(c); added = True
+            if rec.get('econEq'):
+                # the equality: also E(-h) <= 0 under every member
+                wl, ql, _ = mo.worst([[-v_ for v_ in row_] for row_ in Hvals(theta)])
+                if wl > 1e-8:
+                    r, c = cut_econ(ql); A.append(-r); b.append(-c); added = True
         if not added:
             return dict(status='ok', val=float(theta[it]), x=float(theta[0]))
     return dict(status='no-convergence')
@@ -537,6 +545,9 @@ def worst_at_solution(rec, x, ys, G=None):
     wh = None
     if p['econ']:
         wh, _, _ = mo.worst([[piece_val(pe, x, v) for v in mo.verts[s]] for s in range(p['ns'])])
+        if rec.get('econEq') and wh is not None:
+            wl, _, _ = mo.worst([[-piece_val(pe, x, v) for v in mo.verts[s]] for s in range(p['ns'])])
+            wh = max(wh, wl)
     return w, wh
 
 
